@@ -85,9 +85,9 @@ PROPS = {
     "C15": P(["tri"], tb=TRI_TB, assumptions=TRI_AS,
              partial="C15Heap proves for every input that the model never fails with a heap-encoding panic (model-bad-*), never reaches `unreachable`, and (over XQ) never indexes a missing registered edge (`index`): the only panic kind not excluded outright is a RefCell `borrow` conflict: C15Borrow proves it can only be raised in a pass that starts with a self-loop or coinciding partners among the edges registered with the vertex being handled, an executable monitor of exactly that condition (Model/SweepMon.lean, proved identical to the theorem's monitor in C15Monitor) runs in the driver next to every compared input, and the harness reports any input on which it drops (never observed; the prover's own search of 2.6e8 lattice inputs found none); the deep field-wise `==` of BTreeSet::range's sanity check is modelled by identity only"),
     "C16": P(["tri"], tb=TRI_TB, assumptions=TRI_AS,
-             partial="C16Quad.bowtie_rejected: every self-intersecting quadrilateral with distinct abscissae is rejected with an Overlap error at its second event (full path through the model, all rotations and orientations); for larger inputs rejection of every proper crossing is decided by exhaustive enumeration and generators; C16.lean covers the local crossing test"),
+             partial="C16Quad.bowtie_rejected: every self-intersecting quadrilateral with distinct abscissae is rejected with an Overlap error at its second event (full path through the model, all rotations and orientations); C16Monotone.crossing_rejected: every polygon made of two x-monotone chains (any number of vertices, distinct abscissae) whose chains are not simple, with no vertex exactly on the other chain, is rejected with Overlap(Bend, p), and the crossing_rejected_at_* theorems say at which Bend: the one that creates the later of the two crossing edges (one event before the vertex on the wrong side is reached); for other inputs rejection of every proper crossing is decided by exhaustive enumeration and generators; C16.lean covers the local crossing test"),
     "C07": P(["disp2d"], tb=DISP_TB, assumptions=DISP_AS,
-             partial="'within the sum of the reported estimates' is decided by the exact-antiderivative oracle on polynomial f,c,g; theorems give the chain/additivity and per-piece quadrature identity"),
+             partial="C07Accuracy proves the clause end to end on the exact class: for polynomial f, c (resp. g) given through the AD operations, with the integrand f*g' of degree <= 31, every piece's reported value differs from the TRUE real integral of f dg over that piece by at most |b-a|/2 * 1e-16 * sum|coeff|*max(|a|,|b|)^k (the table defect; independent of the number of bisections), 0 <= e < tol, and the reported values of the pieces of [a,b] add up to the integral over [a,b] within the sum of those bounds (rs_piece_accuracy, cav_piece_accuracy, *_total_accuracy); beyond that class the clause is decided by the exact-antiderivative oracle and the reference quadrature"),
     "C08": P(["disp3d", "quad2d"], tb=DISP_TB + TRI_TB + QUAD_TB, assumptions=DISP_AS,
              partial="conditional on the tiling (C03); total checked against a closed form for linear/quadratic f and linear c on sets with holes"),
     "C09": P(["quad2d"], tb=QUAD_TB, assumptions=QUAD_AS,
@@ -125,6 +125,7 @@ PROPS["C03"]["ties"] = PROPS["C03"]["ties"] + ["C04Triangle", "C04Quad", "C04Qua
 # derivative; the displays differentiate f, c, g through them
 for _pid in ("C07", "C08", "C11", "C12", "C13", "C14"):
     PROPS[_pid]["ties"] = PROPS[_pid]["ties"] + ["C05", "C05Defaults"]
+PROPS["C13"]["ties"] = PROPS["C13"]["ties"] + ["C07Accuracy"]
 for _pid in ("C02", "C07", "C08", "C09", "C10", "C13"):
     PROPS[_pid]["ties"] = PROPS[_pid]["ties"] + ["C01Tables"]
 
